@@ -90,6 +90,8 @@ impl<T> HybridRwLock<T> {
 
   #[inline]
   pub fn read(&self) -> ReadGuard<'_, T> {
+    #[cfg(excsn_fibre_verif)]
+    crate::verif_lock_hook::acquire(self as *const _ as usize, "r");
     if self.try_acquire_read() {
       return ReadGuard { lock: self };
     }
@@ -151,6 +153,8 @@ impl<T> HybridRwLock<T> {
 
   #[inline]
   pub async fn read_async(&self) -> ReadGuard<'_, T> {
+    #[cfg(excsn_fibre_verif)]
+    crate::verif_lock_hook::acquire(self as *const _ as usize, "ra");
     if self.try_acquire_read() {
       return ReadGuard { lock: self };
     }
@@ -166,6 +170,8 @@ impl<T> HybridRwLock<T> {
 
   #[inline]
   pub fn write(&self) -> WriteGuard<'_, T> {
+    #[cfg(excsn_fibre_verif)]
+    crate::verif_lock_hook::acquire(self as *const _ as usize, "w");
     if self.try_acquire_write() {
       return WriteGuard { lock: self };
     }
@@ -233,6 +239,8 @@ impl<T> HybridRwLock<T> {
 
   #[inline]
   pub async fn write_async(&self) -> WriteGuard<'_, T> {
+    #[cfg(excsn_fibre_verif)]
+    crate::verif_lock_hook::acquire(self as *const _ as usize, "wa");
     if self.try_acquire_write() {
       return WriteGuard { lock: self };
     }
@@ -247,6 +255,8 @@ impl<T> HybridRwLock<T> {
   // --- Try variants ---
 
   pub fn try_read(&self) -> Option<ReadGuard<'_, T>> {
+    #[cfg(excsn_fibre_verif)]
+    crate::verif_lock_hook::acquire(self as *const _ as usize, "tr");
     let s = self.state.load(Ordering::Relaxed);
     if s & (WRITE_LOCKED | WRITER_PENDING) != 0 {
       return None;
@@ -261,6 +271,8 @@ impl<T> HybridRwLock<T> {
   }
 
   pub fn try_write(&self) -> Option<WriteGuard<'_, T>> {
+    #[cfg(excsn_fibre_verif)]
+    crate::verif_lock_hook::acquire(self as *const _ as usize, "tw");
     if self.try_acquire_write() {
       Some(WriteGuard { lock: self })
     } else {
